@@ -186,9 +186,9 @@ PROPS = {
     "C11": {
         "n": {"quick": 2500, "thorough": 30000},
         "shards": 16,
-        "trusted": ["same graph-level model as C10; edits are write+InvalidateFile as the property quantifies"],
+        "trusted": ["same graph-level model as C10; edits are write+InvalidateFile as the property quantifies", "the syntax errors of the loaded files are not modelled (files are not parsed in the loader model): they are compared between the shared and the fresh loader by the oracle only"],
         "assumptions": ["default depth limit (C10 covers the limit)"],
-        "explanation": "C11_holds: the full statement for all operation sequences on the repaired loader (coherent-cache invariant, cache independence of one load); theorems for ClearCache and invalidate in every state; tie+oracle: after every load of a random operation sequence the shared loader's result is compared with a fresh loader's on the same files",
+        "explanation": "C11_holds: the full statement for all operation sequences on the repaired loader (coherent-cache invariant, cache independence of one load); theorems for ClearCache and invalidate in every state; tie+oracle: after every load of a random operation sequence the shared loader's result (order, files, diagnostics, syntax errors of files with broken lines) is compared with a fresh loader's on the same files; server-level histories with and without workspace root",
     },
     "C13": {
         "n": {"quick": 600, "thorough": 8000},
